@@ -158,11 +158,13 @@ func famRefinedArgIndex(g *genctx, v int) *scen {
 	}
 	a, set, get := g.n("a"), g.n("set"), g.n("get")
 	s := &scen{features: []string{"index", "refined-arg", at.name}}
-	s.fields = []string{fmt.Sprintf("%s : array[%d] base.u32", a, L)}
+	s.fields = []string{fmt.Sprintf("%s : array[%d] base.u32", a, L), g.n("out") + " : base.u32"}
 	s.methods = []string{
 		fmt.Sprintf("pub func obj.%s!(i: %s[..= %d], v: base.u32) {\n    this.%s[args.i] = args.v\n}", set, at.name, hi, a),
-		fmt.Sprintf("pub func obj.%s(i: %s[..= %d]) base.u32 {\n    return this.%s[args.i]\n}", get, at.name, hi, a),
+		fmt.Sprintf("pub func obj.%s!(i: %s[..= %d]) {\n    this.%s = this.%s[args.i]\n}", get, at.name, hi, g.n("out"), a),
+		fmt.Sprintf("pub func obj.%s() base.u32 {\n    return this.%s\n}", g.n("getout"), g.n("out")),
 	}
+	s.getters = []string{g.n("getout")}
 	s.drive = func(r *rand.Rand) []Call {
 		var out []Call
 		for _, x := range []uint64{0, hi, hi + 1, L - 1, L, L + 1, at.max(), hi / 2} {
@@ -222,6 +224,9 @@ func famGuardedIndex(g *genctx, v int) *scen {
 func famArith(g *genctx, v int) *scen {
 	t := g.ityp()
 	op := g.picks("+", "-", "*", "~mod+", "~mod-", "~mod*", "~sat+", "~sat-")
+	if (op == "~sat+" || op == "~sat-") && t.bits < 32 {
+		t = intTypes[2+g.r.Intn(2)] // the binary form on u8/u16 is the G-sat-small family's subject
+	}
 	// choose masks so that the safe variant cannot overflow
 	k1 := 1 + g.r.Intn(t.bits-1)
 	var k2 int
